@@ -144,7 +144,7 @@ def run(sc):
         n += 1
         fl, st = evaluate(dict(cfg, N=cfg['N'] or 0), ev, hung)
         if fl: fails.append({'key': json.dumps({k: v for k, v in cfg.items()}, sort_keys=True), 'config': cfg, 'failed_clauses': fl, 'observed': st})
-    return {'reproduced': bool(fails), 'runs': n, 'n_failures': len(fails), 'failures': fails[:6]}
+    return {'reproduced': bool(fails), 'runs': n, 'n_failures': len(fails), 'failures': fails[:400]}
 if __name__ == '__main__':
     sc = json.load(open(sys.argv[1])) if len(sys.argv) > 1 else {}
     print(json.dumps(run(sc.get('scenario', sc)), default=str))
